@@ -414,12 +414,39 @@ func (x *Exec) callEffects(fr *Frame, c *ssa.CallCommon, depth int) callEff {
 		}
 		return e
 	}
+	sig := c.Signature()
 	fromContract := func(fc *FuncContract) {
 		for _, a := range fc.Assigns {
+			a, _ = splitAssign(a)
 			if strings.HasPrefix(a, "ghost.") {
 				e.ghosts = append(e.ghosts, strings.TrimPrefix(a, "ghost."))
 			} else if a == "*" {
 				e.all = true
+			} else if strings.HasPrefix(a, "*") {
+				// *param: the object a pointer parameter refers to
+				e.all = true
+				if sig != nil {
+					names := paramNames(nil, sig)
+					for i, n := range names {
+						if n != strings.TrimPrefix(a, "*") {
+							continue
+						}
+						var pt types.Type
+						if sig.Recv() != nil {
+							if i == 0 {
+								pt = sig.Recv().Type()
+							} else if i-1 < sig.Params().Len() {
+								pt = sig.Params().At(i - 1).Type()
+							}
+						} else if i < sig.Params().Len() {
+							pt = sig.Params().At(i).Type()
+						}
+						if pt != nil && isPointer(pt) {
+							e.all = false
+							e.heaps = append(e.heaps, "H_"+typeKey(ptrElem(pt)))
+						}
+					}
+				}
 			} else {
 				e.heaps = append(e.heaps, a)
 			}
@@ -586,7 +613,7 @@ func (fr *Frame) enterLoop(st *State, li *loopInfo) {
 	st.pc = x.vc.def("pc", sBool, st.pc)
 	fr.autoLoopFacts(st, li)
 	for _, c := range invs {
-		env := fr.loopEnv(st, li)
+		env := fr.loopEnv(st, li).assuming()
 		g, err := env.evalBool(c.Expr)
 		if err != nil {
 			continue
